@@ -33,7 +33,9 @@ def periodic_replay_one(extra, path, variant):
                                 "armed_differs": obs.get("armed") != e["armed"], "inflight_differs": obs.get("inflight") != e["inflight"],
                                 "running_differs": obs.get("running") != e["running"], "errs_differ": obs.get("errs") != e["errs"],
                                 "raised": obs.get("raised"), "unexpected_log": bool(obs.get("unexpected_log")),
-                                "after_restart": sum(1 for x in path[:i + 1] if x["act"] == "start") > 1}}
+                                "after_restart": sum(1 for x in path[:i + 1] if x["act"] == "start") > 1,
+                                "restart_in_flight": any(x["act"] == "start" and j > 0 and path[j - 1]["exp"]["inflight"] > 0
+                                                         for j, x in enumerate(path[:i + 1]))}}
         return None
     finally:
         real.close()
@@ -100,10 +102,27 @@ def run(ctx):
     paths = ctx.gen_paths("loop", "Gen_Periodic", "Gen_Periodic.cfg", overrides={"L": ctx.pick(5, 6)})
     ctx.replay(paths, periodic_replayer, label="s2c-periodic",
                nontrivial=lambda e, p: any(s["act"] == "tick" for s in p) and any(s["act"] == "start" for s in p))
+    # extension: start() offered again while an invocation is still in flight (after stop)
+    rp = ctx.gen_paths("loop", "Gen_Periodic", "Gen_Periodic.cfg",
+                       overrides={"L": ctx.pick(6, 7), "Restart": 1, "Periods": "{2}", "Ticks": "{41, 52, 62}",
+                                  "Kinds": ctx.pick('{"coro"}', '{"coro", "cororaise", "sync"}')})
+    rp = [(e, p) for e, p in rp if sum(1 for s in p if s["act"] == "start") > 1]
+    ctx.replay(rp, periodic_replayer, label="s2c-periodic-restart")
     n = ctx.pick(300, 10000)
     traces = framework.pool_map(random_periodic_trace, [(i + 1, ctx.seed * 1000003 + i, ctx.pick(80, 150)) for i in range(n)])
     ctx.validate("loop", "Trace_Periodic", "Trace_Periodic.cfg", traces, label="c2s-periodic",
                  sig_fn=lambda t, bad, l: {"spec": "Periodic", "kind_": t["cfg"]["kind"]})
+    # proof component: the arithmetic facts for all integers (TLAPS)
+    import os
+    pr = D.run_tlapm(os.path.join(framework.VERIF, "specs", "loop", "PeriodicProof.tla"), ctx.scratch)
+    ctx.note("tlaps", {k: pr[k] for k in ("ok", "obligations", "failed", "wall_s")})
+    ctx.cov["checker_cmd"].append("tlapm PeriodicProof.tla")
+    ctx.cov["trusted_base"].append("TLAPS (tlapm, Z3/Zenon/Isabelle backends) for PeriodicProof.tla")
+    if not pr["ok"]:
+        if pr["failed"]:
+            ctx.violation({"kind": "proof", "module": "PeriodicProof", "failed": pr["failed"]}, {"tlapm": pr["tail"]})
+        else:
+            raise framework.Machinery("tlapm did not complete: %s" % pr["tail"])
     ctx.cov["exhaustive"] = True
     ctx.cov["rule"] = ("paths: every sequence of start/stop/done/tick(dw, dm) over the Gen tick set (clocks in step, wall slower, "
                        "wall backwards, wall jumping ahead) up to the bound, per period and callback kind; distinct = distinct "
